@@ -3,7 +3,7 @@
 set -u
 W=${SCRATCH:-/tmp/w0}
 if [ ! -d "$W" ]; then git -C /repo worktree add -q --detach "$W" HEAD; fi
-git -C "$W" checkout -q --detach "$(git -C /repo rev-parse HEAD)" && git -C "$W" checkout -q -- . && git -C "$W" clean -qfd
+git -C "$W" checkout -q -- . ; git -C "$W" clean -qfd; git -C "$W" checkout -q --detach "$(git -C /repo rev-parse HEAD)"
 git -C "$W" apply "$1" || { echo "PATCH DOES NOT APPLY"; exit 3; }
 ${WASPCHECK:-/verif/bin/waspcheck} -p "$2" -repo "$W" -out /tmp/ev ${TIER:+-tier $TIER} | grep -E "^VIOLATION|^  rule|^  [a-z].*:[0-9]+ |tier=" | cut -c1-330
 git -C "$W" checkout -q -- . && git -C "$W" clean -qfd
